@@ -299,6 +299,18 @@ def corrupt : P String := do
     P.eof
     return v.render
 
+/-- `xload kind S' A' O' | hex | outcome` : a text written for another shape offered to a destination of shape S' A' O' -/
+def xload : P String := do
+  let (kind, sh) ← pHead; P.bar
+  let hex ← P.tok; P.bar
+  let comp := component kind
+  match readObj viaDouble kind sh with
+  | none => P.fail
+  | some rd =>
+    let o ← pOut kind sh; P.eof
+    let v := judge { tag := "xload " ++ kind } comp rd sh (tokenize (unhex hex)) o "shape_mismatch"
+    return v.render
+
 /-- `rtcopy S A | sig dump x | dump y` : load into a copy-constructed MDP::Policy (not modelled: the model has no aliasing) -/
 def rtcopy : P String := do
   let s ← P.nat; let a ← P.nat; P.bar
@@ -314,6 +326,7 @@ def handle (toks : List String) : String :=
   | "trunc" :: r => (P.run trunc r).getD "bad-op"
   | "corrupt" :: r => (P.run corrupt r).getD "bad-op"
   | "rtcopy" :: r => (P.run rtcopy r).getD "bad-op"
+  | "xload" :: r => (P.run xload r).getD "bad-op"
   | _ => "bad-op"
 
 end DrvC17
